@@ -29,10 +29,11 @@ import (
 )
 
 type row struct {
-	Phase  string `json:"phase"`
-	Kind   string `json:"kind"`
-	Action string `json:"action"`
-	Shape  string `json:"shape"`
+	Phase   string `json:"phase"`
+	Kind    string `json:"kind"`
+	Action  string `json:"action"`
+	Shape   string `json:"shape"`
+	Overlap bool   `json:"overlap"`
 }
 
 const (
@@ -47,6 +48,11 @@ type plog struct {
 	reg    int
 	pm     [][]byte
 	action string
+	// overlap rows: the subscriber keeps the first event until the next one has come in
+	hold    bool
+	entered chan struct{} // closed when the held event is in the subscriber
+	second  chan struct{} // closed when the next event is in the subscriber
+	first   [][]byte      // Data() of the held event at entry and at exit
 }
 
 type world struct {
@@ -168,6 +174,64 @@ func ints(bs [][]byte) [][]int {
 	return out
 }
 
+// overlap sends two different messages of one size so that the second is taken in while
+// the subscriber still holds the first one's event; both are recorded as rows.
+func (x *conn) overlap(r row) []tracefmt.Rec {
+	x.n++
+	pl := x.w.get(x.name)
+	a := body(r, x.n)
+	x.n++
+	b := body(r, x.n)
+	ch := channelOf(r, x.c.Proto)
+	fromClient := r.Phase == "clientPlay"
+	entered, second := make(chan struct{}), make(chan struct{})
+	pl.mu.Lock()
+	pl.action, pl.hold, pl.entered, pl.second, pl.first = r.Action, true, entered, second, nil
+	pm0 := len(pl.pm)
+	pl.mu.Unlock()
+	fwd0 := len(x.arrived(fromClient, ch))
+	send := func(data []byte) {
+		if fromClient {
+			_ = x.c.SendPlugin(ch, data)
+		} else {
+			_ = x.bc.WritePacket(rig.CBPluginID(x.bc.Proto, false), rig.PluginPayload(ch, data))
+		}
+	}
+	send(a)
+	select {
+	case <-entered:
+	case <-time.After(3 * time.Second):
+	}
+	send(b)
+	rig.WaitFor(3*time.Second, func() bool {
+		pl.mu.Lock()
+		done := len(pl.first) == 2 && len(pl.pm) > pm0
+		pl.mu.Unlock()
+		return done && len(x.arrived(fromClient, ch)) >= fwd0+2
+	})
+	time.Sleep(40 * time.Millisecond)
+	pl.mu.Lock()
+	first := append([][]byte(nil), pl.first...)
+	rest := append([][]byte(nil), pl.pm[pm0:]...)
+	pl.action, pl.hold, pl.second = "none", false, nil
+	pl.mu.Unlock()
+	// forwarded copies are attributed by content; anything else counts against the first message
+	var fa, fb [][]byte
+	for _, d := range x.arrived(fromClient, ch)[fwd0:] {
+		if string(d) == string(b) {
+			fb = append(fb, d)
+		} else {
+			fa = append(fa, d)
+		}
+	}
+	mk := func(data []byte, pm, fwd [][]byte, which string) tracefmt.Rec {
+		return tracefmt.Rec{"ev": "row", "phase": r.Phase, "kind": r.Kind, "action": r.Action, "shape": r.Shape,
+			"overlap": true, "which": which, "proto": x.c.Proto, "body": tracefmt.Bytes(data), "regEvents": 0,
+			"pm": ints(pm), "fwd": ints(fwd)}
+	}
+	return []tracefmt.Rec{mk(a, first, fa, "first"), mk(b, rest, fb, "second")}
+}
+
 // do sends one row's message and records what was observed.
 func (x *conn) do(r row) tracefmt.Rec {
 	x.n++
@@ -203,7 +267,7 @@ func (x *conn) do(r row) tracefmt.Rec {
 	pl.mu.Unlock()
 	fwd := x.arrived(fromClient, ch)[fwd0:]
 	return tracefmt.Rec{"ev": "row", "phase": r.Phase, "kind": r.Kind, "action": r.Action, "shape": r.Shape,
-		"proto": x.c.Proto, "body": tracefmt.Bytes(data), "regEvents": regN, "pm": ints(pm), "fwd": ints(fwd)}
+		"overlap": false, "proto": x.c.Proto, "body": tracefmt.Bytes(data), "regEvents": regN, "pm": ints(pm), "fwd": ints(fwd)}
 }
 
 func TestRows(t *testing.T) {
@@ -230,13 +294,34 @@ func TestRows(t *testing.T) {
 		}
 		pl := w.get(name)
 		pl.mu.Lock()
-		pl.pm = append(pl.pm, append([]byte{}, e.Data()...))
 		switch pl.action {
 		case "allow":
 			e.SetForward(true)
 		case "deny":
 			e.SetForward(false)
 		}
+		if pl.hold {
+			// first message of an overlap row: what does this event show now, and what
+			// does it show once the next message has been taken in by the proxy?
+			pl.hold = false
+			pl.first = [][]byte{append([]byte{}, e.Data()...)}
+			entered, second := pl.entered, pl.second
+			pl.mu.Unlock()
+			close(entered)
+			select {
+			case <-second:
+			case <-time.After(2 * time.Second):
+			}
+			pl.mu.Lock()
+			pl.first = append(pl.first, append([]byte{}, e.Data()...))
+			pl.mu.Unlock()
+			return
+		}
+		if pl.second != nil {
+			close(pl.second)
+			pl.second = nil
+		}
+		pl.pm = append(pl.pm, append([]byte{}, e.Data()...))
 		pl.mu.Unlock()
 	})
 	sb, err := rig.NewSBackend()
@@ -375,7 +460,11 @@ func TestRows(t *testing.T) {
 			}
 			for i, rw := range rows {
 				if (rw.Phase == "clientPlay" || rw.Phase == "backendPlay") && mine(i) {
-					recs = append(recs, x.do(rw))
+					if rw.Overlap {
+						recs = append(recs, x.overlap(rw)...)
+					} else {
+						recs = append(recs, x.do(rw))
+					}
 				}
 			}
 		}()
